@@ -88,6 +88,28 @@ pub fn units(thorough: bool) -> Vec<Unit> {
         v.push(explore_unit(format!("sched/cap{}/delete-sub+delete-sub+publish", cap), "two DeleteSubscription of the same subscription ‖ Publish", Bounds::new(d), cfg.clone(), program("delete-sub‖delete-sub", vec![vec![DeleteSub(S0)], vec![DeleteSub(S0)], vec![Publish(T0, 1)]], true, false)));
         v.push(explore_unit(format!("sched/cap{}/stream+delete+publish", cap), "open StreamingPull + blocked Pull ‖ DeleteSubscription ‖ Publish", Bounds::new(d), cfg.clone(), program("stream‖delete-sub‖publish", vec![vec![Stream(S0, 10)], vec![PullBlock(S0, 1)], vec![DeleteSub(S0)], vec![Publish(T0, 1)]], false, false)));
     }
+    // the push loop next to creation / deletion of push subscriptions (also feeds the lock-order analysis)
+    {
+        let f: ScenFn = scen!(|cx| {
+            must!(cx, "setup:create-topic", { let a = cx.api.clone(); async move { a.create_topic(T0).await } });
+            must!(cx, "setup:create-push-sub", { let a = cx.api.clone(); async move { a.create_sub(S0, T0, 10, Some("http://push.example/a")).await } });
+            must!(cx, "setup:publish", { let a = cx.api.clone(); async move { a.publish(T0, vec![(b"m".to_vec(), vec![])]).await } });
+            tryv!(cx.advance_ms(999).await);
+            let progs = vec![vec![COp::Sleep(2), COp::CreateSub(S1, T0), COp::DeleteSub(S0)], vec![COp::Sleep(2), COp::Publish(T0, 1), COp::GetSub(S0)], vec![COp::Sleep(2), COp::ListSubs]];
+            // S2 is created as a push subscription while a push round is running
+            let a2 = cx.api.clone();
+            let extra = cx.spawn("client:03", async move { tokio::time::sleep(std::time::Duration::from_millis(2)).await; a2.create_sub(S2, T0, 10, Some("http://push.example/b")).await.is_ok() });
+            let l = start(&cx, &progs, &[]);
+            tryv!(cx.advance_ms(5).await);
+            tryv!(await_termination(&cx, &l, "push-loop‖create‖delete").await);
+            if !extra.is_finished() {
+                return ScenarioOut::viol("push-loop‖create‖delete/hang/CreateSub", "CreateSubscription (push) did not return".to_string());
+            }
+            tryv!(cx.advance_ms(2_000).await);
+            ScenarioOut::ok(l.hist.key())
+        });
+        v.push(explore_unit("sched/push-loop+create+delete", "the push loop ticks while push and pull subscriptions are created, one is deleted, and a Publish, a Get and a List run; termination, plus the lock nesting of everything executed (lock-order analysis)", Bounds::new(d), ExecCfg { push_interval_ms: Some(1000), ..Default::default() }, f));
+    }
     // the shipped capacity (16): Delete first, 16 requests behind it, then the Publish
     let mut progs = vec![vec![DeleteSub(S0)]];
     let menu = [PullNow(S0, 10), AckHeld(S0, 0), GetSub(S0), ModHeld(S0, 0, 30)];
